@@ -75,6 +75,7 @@ func cmdFn(args []string) {
 		}
 		return
 	}
+	results = append(results, s.LemmaResults())
 	s.DischargeAll(results, "fn")
 	for _, r := range results {
 		fmt.Printf("== %s  paths=%d returns=%d obligations=%d\n", r.Key, r.Paths, r.Returns, len(r.Obligations))
